@@ -316,7 +316,7 @@ const rule = "Sample.Quantile/IQR on rapid-generated samples (n 0..200 with repe
 	"Sorted; integer or real non-negative weights, never all zero): unweighted value vs the exact R8 estimate in 400-bit " +
 	"arithmetic (tolerance 16 eps max|x| + 16 eps n G, G the largest neighbouring gap), monotone in q, within [min,max], ends, " +
 	"bit-identical under reordering and the Sorted flag, sample untouched, NaN when empty, IQR identity; weighted: first " +
-	"ascending value whose cumulative weight exceeds q*W. Non-trivial: n>=3, 0<q<1, not constant. distinct = canonical JSON. Later additions: nearly sorted second orders; stored killer orders for selection routines and classical adversaries (TestKillerOrders)."
+	"ascending value whose cumulative weight exceeds q*W. Non-trivial: n>=3, 0<q<1, not constant. distinct = canonical JSON. Later additions: nearly sorted second orders; stored killer orders for selection routines and classical adversaries (TestKillerOrders); data in the top binades 9e307..1.7e308 (one sign)."
 
 func TestQuantile(t *testing.T) {
 	ev.Rule(rule)
